@@ -3,7 +3,8 @@ import ast
 import z3
 
 from pyvc.values import Ref, Arr, Opaque, Unsupported, to_z3, fresh_scalar, fresh_arr, fresh_name
-from pyvc import npmodel, symlist
+from pyvc import npmodel, symlist, eff
+from pyvc.framework import ObResult
 from pyvc.theories import sums, real
 from .common import *  # noqa
 
@@ -196,6 +197,33 @@ def finite_range(ctx, normalize):
                registry=registry(), replayer="c04_logw")
 
 
+def no_raw_exponential(ctx):
+    """Finiteness clause, structural half: compute_logw_and_logz (and whatever package helper it hands likelihood values to) never
+    applies a plain np.exp to a log-likelihood-scaled quantity — only the overflow-free log-add-exp / log-sum-exp primitives do
+    the exponentials.  exp(b) with |b| up to 1e6 + |logz| overflows / underflows in binary64 although the result is algebraically
+    the same, so the value contract above (over the reals) cannot see it.  Sufficient condition (a max-shifted exp would be safe):
+    a flagged site is settled by the native oracle at |logL| = 1e6."""
+    from pyvc import taint
+    from . import c10
+    res = taint.analyse(ctx.mods, sanitize=getattr(c10, "SANITIZE", {}))
+    ft = res.get((SM, "StateManager.compute_logw_and_logz"))
+    bad = []
+    reach = {(SM, "StateManager.compute_logw_and_logz")}
+    # helpers of the package that compute_logw_and_logz calls (one level: name-based)
+    f = eff.qualname_index(ctx.mods).get((SM, "StateManager.compute_logw_and_logz"))
+    called = {(eff.dotted(n.func) or "").split(".")[-1] for n in ast.walk(f) if isinstance(n, ast.Call)} if f else set()
+    for (m, q) in res:
+        if q.split(".")[-1] in called and q.split(".")[-1] not in ("get_history", "get_current"):
+            reach.add((m, q))
+    for key in sorted(reach):
+        for ln, w in (res[key].uses if key in res else []):
+            if w.startswith("call: np.exp(") or w.startswith("call: numpy.exp(") or w.startswith("call: math.exp("):
+                bad.append(f"{key[0]}.{key[1]}:{ln} {w}")
+    r = ctx.add(ObResult("C04/finite/no-plain-exp-of-likelihood-scaled-quantities", "violated" if bad or f is None else "discharged", "pyvc-eff", 0.0, 1,
+                         " ; ".join(bad[:4]), kind="effect"))
+    r.replayer = "c04_logw"
+
+
 def empty(ctx):
     info = {}
 
@@ -238,6 +266,7 @@ def run(ctx):
     main(ctx, True)
     main(ctx, False)
     empty(ctx)
+    no_raw_exponential(ctx)
     lemmas(ctx)
     ctx.trust("np.logaddexp.reduce = log sum exp", "np.concatenate/np.array contracts on history lists (pyvc/symlist.py)",
               "wf_history: every history list has T entries and batch t has n_t>=1 rows under every key (established by commit_current_to_history, C17)",
